@@ -103,10 +103,100 @@ def held_damage_calculator():
     return obs, n, res.distinct
 
 
+def _fd_replay(blocks):
+    """Replays FatigueData.tla histories on the real accessor; returns (n histories, calls, list of deviations)."""
+    import warnings
+    from fractions import Fraction
+    import pandas as pd
+    from .tlaparse import parse_state
+    from pylife.materialdata.woehler.fatigue_data import FatigueData
+    n = calls = 0
+    dev = []
+    for b in blocks:
+        st = parse_state(b.strip())
+        hist = st['hist']
+        if len(hist) != 3:           # the leaves contain every shorter history as a prefix
+            continue
+        n += 1
+        t0 = st['tests0']
+        tests0 = {i + 1: r for i, r in enumerate(t0)} if isinstance(t0, (list, tuple)) else dict(t0)
+        for order in (0, 1):
+            ids = sorted(tests0)
+            if order:
+                ids = ids[1::2] + ids[0::2][::-1]                # a second row order: the zones are sets of row labels
+            df = pd.DataFrame({'load': [float(tests0[i]['load']) for i in ids],
+                               'cycles': [(1e5 + 1e3 * i) if tests0[i]['frac'] else 1e7 for i in ids],
+                               'fracture': [bool(tests0[i]['frac']) for i in ids]}, index=ids)
+            with warnings.catch_warnings():
+                warnings.simplefilter('ignore')
+                fd = FatigueData(df)
+                for k, (name, arg, ret) in enumerate(hist):
+                    calls += 1
+                    tag, val = ret
+                    try:
+                        if name == 'query':
+                            got = {'tr': lambda: fd.finite_infinite_transition, 'fin': lambda: fd.finite_zone, 'inf': lambda: fd.infinite_zone}[arg]()
+                            if tag == 'raised':
+                                ok, shown = False, 'returned %r' % (got,)
+                            elif arg == 'tr':
+                                ok, shown = float(got) == float(Fraction(val[0], val[1])), float(got)
+                            else:
+                                rows = set(val) if not isinstance(val, dict) else set(val)
+                                ok, shown = set(got.index) == rows and set(got.columns) >= {'load', 'cycles', 'fracture'}, sorted(got.index)
+                        elif name == 'conservative':
+                            r = fd.conservative_finite_infinite_transition()
+                            ok, shown = r is fd, 'returned another object'
+                        elif name == 'set':
+                            r = fd.set_finite_infinite_transition(arg / 2.0)
+                            ok, shown = r is fd, 'returned another object'
+                        else:
+                            r = fd.irrelevant_runouts_dropped()
+                            ok, shown = (r is fd) == (tag == 'self'), 'same object' if r is fd else 'new object'
+                            fd = r
+                    except Exception as ex:
+                        ok, shown = tag == 'raised' and type(ex).__name__ == val, 'raised %s' % type(ex).__name__
+                    if not ok:
+                        dev.append({'tests_load_fracture': [[tests0[i]['load'], tests0[i]['frac']] for i in ids], 'calls': [[h[0], h[1]] for h in hist], 'failing_call': k + 1,
+                                    'model': [tag, sorted(val) if isinstance(val, (set, frozenset)) else val], 'code': shown})
+                        break
+    return n, calls, dev[:3]
+
+
+def fatigue_data():
+    """FatigueData.tla: lazily computed / settable transition load and zones of the fatigue_data accessor under every call history of length 3."""
+    from . import par
+    from .tlaparse import parse_state
+    d = os.path.join(SPEC, 'fatiguedata')
+    res = tlc.run(os.path.join(d, 'FatigueData.tla'), os.path.join(d, 'MC_FatigueData.cfg'), dump=True, timeout=900)
+    if res.violated or res.error:
+        return ['MACHINERY FatigueData.tla: %s %s' % (res.violated, (res.error or '')[:200])], 0, 0
+    obs = []
+    tot = calls = 0
+    devs = []
+    for n, c, dv in par.pmap(_fd_replay, par.split_dump(res.dump_path, 64), chunksize=1):
+        tot += n
+        calls += c
+        devs += dv
+    os.remove(res.dump_path)
+    if devs:
+        obs.append('OBSERVATION fatigue_data accessor: %d call histories answer differently from FatigueData.tla. first: %s' % (len(devs), json.dumps(devs[0], default=str)))
+    # what the doc strings promise beyond that: TLC's counterexamples are the observations
+    for inv, text in (('NeverRaises', 'finite_infinite_transition raises IndexError for a table with run-outs and a single load level (the guess from the two highest levels)'),
+                      ('DocZonesFractures', 'after conservative_finite_infinite_transition() the zones are still cut at the highest run-out level, not at the transition load it has just set: '
+                                            'fractures above the new transition load stay in the infinite zone'),
+                      ('DocZones', 'finite_zone / infinite_zone are not "all the tests above / below the transition": run-outs above it are in neither zone, tests exactly on it are in the infinite zone')):
+        r2 = tlc.run(os.path.join(d, 'FatigueData.tla'), os.path.join(d, 'MC_FatigueData_%s.cfg' % inv), timeout=600)
+        if r2.violated:
+            last = r2.trace[-1] if r2.trace else {}
+            obs.append('OBSERVATION fatigue_data accessor (model level, confirmed by the replay above): %s. TLC counterexample: tests=%s calls=%s'
+                       % (text, json.dumps(last.get('tests'), default=str), json.dumps(last.get('hist'), default=str)))
+    return obs, tot, res.distinct
+
+
 def main():
     build.install()
     rc = 0
-    for name, fn in (('timesignal_generator', timesignal_generator), ('held_damage_calculator', held_damage_calculator)):
+    for name, fn in (('timesignal_generator', timesignal_generator), ('held_damage_calculator', held_damage_calculator), ('fatigue_data', fatigue_data)):
         obs, n, states = fn()
         for o in obs:
             print(o)
